@@ -744,9 +744,25 @@ package gorm
 //@ # builds afresh); a dry run keeps them for the caller to read. Clause order borrowed from the processor is
 //@ # returned.
 //@ func (*processor).Execute
-//@   tags C06 C19
+//@   tags C06 C19 C05
+//@   assumes handle-well-formed: db.clone > 0 || (db.Statement != nil && db.Statement.DB == db)
 //@   loop 1 invariant without-scopes-the-handle-stays: len(old(db.Statement.scopes)) == 0 ==> db == old(db) && len(db.Statement.scopes) == 0
-//@   ensures same-handle-without-scopes: len(old(db.Statement.scopes)) == 0 ==> result == db
+//@   loop 1 invariant handle-stays-well-formed: db.clone > 0 || (db.Statement != nil && db.Statement.DB == db)
+//@   ensures same-handle-without-scopes: len(old(db.Statement.scopes)) == 0 && db.clone <= 0 ==> result == db
+//@ # The callbacks of an operation record what they did in the statement they are given (the implicit transaction they
+//@ # started, settings): they must all be given one instance (clone == 0) that owns its statement. A scope may return a
+//@ # handle made with Session/WithContext (clone > 0): every InstanceSet/Set on it would write a throw-away clone, the
+//@ # started transaction would never be committed and the write reported as successful would be lost (finding F17).
+//@ site scope-results-are-handles
+//@   match call gorm.(*DB).executeScopes
+//@   in gorm.(*processor).Execute
+//@   min-sites 1
+//@   assume-after scopes-return-well-formed-handles: result.clone > 0 || (result.Statement != nil && result.Statement.DB == result)
+//@ site callbacks-run-on-one-instance
+//@   match calldyn elem
+//@   in gorm.(*processor).Execute
+//@   min-sites 1
+//@   assert an-instance-that-owns-its-statement: arg0.clone <= 0 && arg0.Statement != nil && arg0.Statement.DB == arg0 [C05,C06]
 //@   ensures real-run-clears-the-bound-values: !result.Statement.DB.Config.DryRun ==> result.Statement.Vars == nil [C06]
 //@   ensures real-run-clears-the-built-text: !result.Statement.DB.Config.DryRun ==> textCleared == 1 [C06]
 //@ ghost textCleared
